@@ -252,6 +252,19 @@ def r04d(ctx):
     ctx.instance("R04d", f"{f.file}:{f.ident}", "template container is cloned, not shared", ok=ok3)
     if not ok3:
         ctx.report("R04d", f, f.node, "template container shared", "documents created from a template share the template container")
+    # every other place of document.py that writes the mimetype part keeps the root entry of the manifest in step with the same value
+    for g2 in repo.module("document").all_funcs:
+        if g2 is f or g2.kind == "nested":
+            continue
+        sets = [n for n in walk_no_nested(g2.node) if isinstance(n, ast.Assign) and isinstance(n.targets[0], ast.Attribute) and n.targets[0].attr == "mimetype"]
+        for st in sets:
+            ups = [c for c in walk_no_nested(g2.node) if isinstance(c, ast.Call) and call_name(c) in ("set_media_type", "add_full_path") and len(c.args) >= 2
+                   and repo.fold(c.args[0], g2.module) == "/" and ast.unparse(c.args[1]) == ast.unparse(st.value)]
+            okm = bool(ups)
+            ctx.instance("R04d", f"{g2.file}:{g2.ident}", f"`{norm(st, 40)}` is paired with the root entry of the manifest", ok=okm, nontrivial=True, line=st.lineno)
+            if not okm:
+                ctx.report("R04d", g2, st, norm(st, 60),
+                           f"{g2.ident} writes the mimetype part without giving the manifest's root entry ('/') the same media type: the saved package declares two different types")
     # Container.mimetype setter stores bytes under the key read by _save_zip
     g = repo.func("Container.mimetype", "setter")
     keys = {repo.fold(n.targets[0].slice, g.module) for n in walk_no_nested(g.node) if isinstance(n, ast.Assign) and isinstance(n.targets[0], ast.Subscript)}
@@ -308,6 +321,65 @@ def r04e(ctx):
         raise AnalysisError("R04e: Manifest path functions not found")
 
 
+_FIXTURE_F = '''
+def bad_direct(self):
+    if RDF not in self.container.parts:
+        self.container.set_part(RDF, DEFAULT)
+def bad_local(self):
+    parts = self.container.get_parts()
+    if RDF in parts:
+        self.container.del_part(RDF)
+def ok_iter(self):
+    for path in self.parts:
+        if path not in self.__parts:
+            self.get_part(path)
+def ok_ask(self):
+    if self.container.get_part(RDF) is None:
+        self.container.set_part(RDF, DEFAULT)
+'''
+
+
+def _member_list_tests(fn):
+    """membership tests (`x in <…>.parts`, `x not in <…>.get_parts()`, or in a local bound to one of these) inside a function"""
+    def is_listing(e):
+        return isinstance(e, ast.Attribute) and e.attr == "parts" or isinstance(e, ast.Call) and call_name(e) == "get_parts"
+    locs = {t.id for a in walk_no_nested(fn) if isinstance(a, ast.Assign) and is_listing(a.value) for t in a.targets if isinstance(t, ast.Name)}
+    out = []
+    for x in walk_no_nested(fn):
+        if isinstance(x, ast.Compare) and len(x.ops) == 1 and isinstance(x.ops[0], (ast.In, ast.NotIn)):
+            c = x.comparators[0]
+            if is_listing(c) or isinstance(c, ast.Name) and c.id in locs:
+                out.append(x)
+    return out
+
+
+def r04f(ctx):
+    """Whether the package will hold a part is asked of the part table, not of the file on disk.
+
+    `Container.parts` / `get_parts()` of a document opened from a path list the members of that file: parts added with set_part since are
+    not in it, parts deleted since still are.  Iterating it to pre-load what has not been read yet is its purpose; deciding with it what to
+    write or delete is not — Document.save took a manifest.rdf that had just been set for missing and replaced it.  Rule (expected count 0;
+    fixture on every run): no membership test against the member list in Document or Container.
+    """
+    repo = ctx.repo
+    ctx.rule("R04f", "no decision of Document/Container is taken by a membership test on the member list of the file (Container.parts / get_parts())", floor=50)
+    tree = ast.parse(_FIXTURE_F)
+    got = {fn.name: len(_member_list_tests(fn)) for fn in tree.body}
+    if got != {"bad_direct": 1, "bad_local": 1, "ok_iter": 0, "ok_ask": 0}:
+        raise AnalysisError(f"R04f fixture: member-list test detector broken: {got}")
+    for cname in ("Document", "Container"):
+        c = repo.cls(cname)
+        for name, fs in sorted(c.methods.items()):
+            for f in fs:
+                bad = _member_list_tests(f.node)
+                ctx.instance("R04f", f"{f.file}:{f.ident}", "no membership test on the member list", ok=not bad, nontrivial=bool(bad), line=f.node.lineno)
+                for x in bad[:2]:
+                    ctx.report("R04f", f, x, norm(x, 60),
+                               f"{f.ident} decides with `{norm(x, 50)}`: for a document opened from a path the member list is the file's, so a part set in memory since is taken for "
+                               f"missing (and overwritten or left out) and a part deleted since is taken for present — the saved package and its manifest then disagree with what the "
+                               f"caller built")
+
+
 def run(ctx):
     r04a(ctx)
     r04b(ctx)
@@ -319,6 +391,7 @@ def run(ctx):
     # a clone that shares the part table with its original makes either one save parts the other one's manifest does not list
     r10d(ctx)
     r04e(ctx)
+    r04f(ctx)
     # the manifest is one of the parsed XML parts: it reaches the package only if Document.save flushes every parsed part (rule shared with C03)
     from .c03 import r03b
     r03b(ctx)
@@ -331,6 +404,11 @@ _DOC = "src/odfdo/document.py"
 _MA = "src/odfdo/manifest.py"
 _MAN = "src/odfdo/manifest.py"
 SEEDS = [
+    Seed("Document.mimetype setter forgets the manifest root entry", "fault", _DOC,
+         '        self.container.mimetype = mimetype\n        # the root entry of the manifest carries the same media type\n        self.manifest.add_full_path("/", mimetype)\n', '        self.container.mimetype = mimetype\n', "R04d"),
+    Seed("manifest.rdf check decides on the member list of the file again", "fault", _DOC,
+         "        try:\n            has_rdf = self.container.get_part(ODF_MANIFEST_RDF) is not None\n        except (KeyError, ValueError, OSError):\n            has_rdf = False\n",
+         "        has_rdf = ODF_MANIFEST_RDF in self.container.parts\n", "R04f"),
     Seed("make_file_entry pastes path and media type into XML text again", "fault", _MAN,
          '        entry = Element.from_tag("manifest:file-entry")\n        entry.set_attribute("manifest:media-type", media_type)\n        entry.set_attribute("manifest:full-path", full_path)\n        return entry',
          '        tag = (\n            f"<manifest:file-entry "\n            f\'manifest:media-type="{media_type}" \'\n            f\'manifest:full-path="{full_path}"/>\'\n        )\n        return Element.from_tag(tag)', "R04e"),
